@@ -51,6 +51,7 @@ step_exec(const char *step_name, struct config *config, struct arena *scratch,
 	char *const *command;
 	pid_t pid;
 	int error, status;
+	int killed = 0;
 
 	arena_scope(scratch, s);
 
@@ -81,6 +82,7 @@ step_exec(const char *step_name, struct config *config, struct arena *scratch,
 			    gotsig);
 			if (killwaitpg(pid, 5000, &status))
 				warnx("failed to kill process group");
+			killed = 1;
 			break;
 		}
 		w = waitpid(-pid, &status, WNOHANG);
@@ -89,6 +91,16 @@ step_exec(const char *step_name, struct config *config, struct arena *scratch,
 		if (w > 0)
 			break;
 		usleep(50 * 1000);
+	}
+	/*
+	 * A signal delivered after the last look at gotsig finds the main
+	 * process already reaped, the rest of its process group must not be
+	 * left behind.
+	 */
+	if (gotsig && !killed) {
+		warnx("caught signal %d, kill process group", gotsig);
+		warnx("sending term signal");
+		(void)kill(-pid, SIGTERM);
 	}
 	error = exitstatus(status, gotsig);
 	/* The step was not allowed to finish, never signal success. */
